@@ -18,6 +18,9 @@ Env(n, d) == IF n \in DOMAIN IOEnv THEN IOEnv[n] ELSE d
 Tier  == Env("TIER", "quick")            \* quick | thorough | deep (simulation over DeepTable)
 Seed  == atoi(Env("SEED", "1"))
 NDeep == atoi(Env("NDEEP", "300"))
+MCFault  == Env("FAULT", "none")         \* negative control of the laws, see SyltComposite!LawBin
+OnlyKind == Env("ONLYKIND", "")          \* restrict the jobs (negative controls, replays, debugging)
+OnlyT    == atoi(Env("ONLYT", "0"))
 
 NT == Len(TypeTable)
 Ty(t) == TypeTable[t].ty
@@ -84,22 +87,43 @@ Result(j) ==
     [] j.kind = "prov" -> [apps |-> ProvApps(ProvTable[j.c]), laws |-> ProvLaws(ProvTable[j.c]), npairs |-> 1]
     [] j.kind = "alias" -> [apps |-> AliasApps(Ty(j.t)), laws |-> {}, npairs |-> 1]
 
-Init == job \in Jobs /\ pc = "new" /\ viol = {}
+Selected == IF OnlyKind = "" /\ OnlyT = 0 THEN Jobs
+            ELSE {j \in Jobs : (OnlyKind = "" \/ j.kind = OnlyKind) /\ (OnlyT = 0 \/ j.t = OnlyT)}
+Init == job \in Selected /\ pc = "new" /\ viol = {}
 
-Run ==
+\* what one job yields: the violated laws and the REPLAY record.  (An operator, not a LET inside the action: TLC caches
+\* LET definitions only below `eval`, a LET written directly in an action conjunct is re-evaluated at every mention.)
+Outcome(j) ==
+  LET r == Result(j)
+      apps == [i \in 1..Len(r.apps) |-> r.apps[i]]
+      oks == SelectSeq(apps, LAMBDA x : x.ok)
+      nstuck == Len(SelectSeq(apps, LAMBDA x : x.stuck))
+      items == IF Len(oks) = 0 THEN <<>> ELSE [i \in 1..Len(oks) |-> oks[i].item]
+      shape == IF j.kind = "deep" THEN Shape(DeepTable[j.t]) ELSE IF j.t = 0 THEN "-" ELSE Shape(Ty(j.t)) IN
+  [viol |-> {l.n : l \in {x \in r.laws : ~x.ok}} \cup (IF nstuck > 0 THEN {"applicable-operator-stuck"} ELSE {}),
+   rec |-> [id |-> j, shape |-> shape, items |-> items, npairs |-> r.npairs, dropped |-> Len(apps) - Len(oks) - nstuck,
+            laws |-> {l.n : l \in r.laws}]]
+
+Emit(j) == LET o == Outcome(j) IN IF PrintT(<<"REPLAY", ToJson(o.rec)>>) THEN o.viol ELSE o.viol
+
+\* one action per kind of job, so that -coverage shows which kinds ran
+RunKind(kind) ==
   /\ pc = "new"
-  /\ LET r == Result(job)
-         oks == SelectSeq(r.apps, LAMBDA x : x.ok)
-         nstuck == Len(SelectSeq(r.apps, LAMBDA x : x.stuck))
-         items == IF Len(oks) = 0 THEN <<>> ELSE [i \in 1..Len(oks) |-> oks[i].item]
-         shape == IF job.kind = "deep" THEN Shape(DeepTable[job.t]) ELSE IF job.t = 0 THEN "-" ELSE Shape(Ty(job.t)) IN
-     /\ viol' = r.laws \cup (IF nstuck > 0 THEN {"applicable-operator-stuck"} ELSE {})
-     /\ PrintT(<<"REPLAY", ToJson([id |-> job, shape |-> shape, items |-> items, npairs |-> r.npairs,
-                                   dropped |-> Len(r.apps) - Len(oks) - nstuck])>>)
+  /\ job.kind = kind
+  /\ viol' = Emit(job)
   /\ pc' = "done"
   /\ UNCHANGED job
 
-Next == Run
+RunPairs == RunKind("pairs")
+RunDiag  == RunKind("diag")
+RunNeg   == RunKind("neg")
+RunDivN  == RunKind("divn")
+RunTrans == RunKind("trans")
+RunProv  == RunKind("prov")
+RunAlias == RunKind("alias")
+RunDeep  == RunKind("deep")
+
+Next == RunPairs \/ RunDiag \/ RunNeg \/ RunDivN \/ RunTrans \/ RunProv \/ RunAlias \/ RunDeep
 Spec == Init /\ [][Next]_vars
 
 NoLawViolated == viol = {}
